@@ -69,6 +69,8 @@ THEOREMS = [
     "C01_acyclic_sound",
     "C01_serde_rules_sound",
     "C01_serde_default_sound",
+    "C01_skip_path_sound",
+    "C01_skip_path_map_coherent",
     "C01_derive_bounds",
     "C01_derive_bounds_sound",
     "C01_prelude_clean_sound",
@@ -208,6 +210,94 @@ def stream_fixtures(tier):
                 # PartialEq on everything needs PartialEq of the external / replacement types: the caller's business
                 st.pop("derives")
             out.append(mk("fixture:%s:%d" % (name, k), "fixture", st, [{"op": "root", "doc": doc}], True, ["fixture"]))
+    return out
+
+
+# --- constrained-key maps in every position ------------------------------------
+# every map shape of typify/tests/schemas/maps.json (propertyNames with pattern / format / $ref / enum; patternProperties)
+# x value kinds x positions, under the three map-type settings x builder on/off.  Deterministic (fixed world).
+MAP_KEYS = [
+    ("pn-pattern", {"propertyNames": {"pattern": "^[a-z]+$"}}),
+    ("pn-format", {"propertyNames": {"format": "date"}}),
+    ("pn-format-unknown", {"propertyNames": {"type": "string", "format": "^a*$"}}),
+    ("pn-ref", {"propertyNames": {"$ref": "#/definitions/Key"}}),
+    ("pn-ref-enum", {"propertyNames": {"$ref": "#/definitions/KeyEnum"}}),
+    ("pn-enum", {"propertyNames": {"type": "string", "enum": ["a", "b"]}}),
+    ("pn-maxlen", {"propertyNames": {"type": "string", "maxLength": 3}}),
+    ("pp-one", {"patternProperties": {"^x-": None}, "additionalProperties": False}),
+    ("plain", {}),
+]
+MAP_VALUES = [
+    ("any-absent", "absent"), ("any-true", True), ("any-empty", {}), ("typed", {"type": "integer"}),
+    ("ref", {"$ref": "#/definitions/Val"}), ("ref-struct", {"$ref": "#/definitions/Leaf"}),
+]
+MAP_POSITIONS = ["prop-required", "prop-optional", "array-item", "map-value", "variant-external", "variant-untagged", "definition",
+                 "prop-optional-default", "nullable"]
+MAP_SETTINGS = [(mt, b) for mt in (None, "::std::collections::HashMap", "::std::collections::BTreeMap") for b in (False, True)]
+MAP_DEFS = {"Key": {"type": "string", "pattern": "^k[0-9]+$"}, "KeyEnum": {"type": "string", "enum": ["x", "y"]},
+            "Val": {"type": "string"}, "Leaf": LEAF_DEF if False else {"type": "object", "properties": {"k": {"type": "string"}}, "required": ["k"]}}
+
+
+def map_schema(keys, val):
+    s = {"type": "object"}
+    for k, v in keys.items():
+        s[k] = copy.deepcopy(v)
+    if "patternProperties" in s:
+        pv = {} if val in ("absent", True) else copy.deepcopy(val)
+        s["patternProperties"] = {"^x-": pv}
+    elif val != "absent":
+        s["additionalProperties"] = copy.deepcopy(val)
+    return s
+
+
+def map_place(pos, m):
+    if pos == "prop-required":
+        return {"type": "object", "properties": {"m": m, "n": {"type": "integer"}}, "required": ["m"]}
+    if pos == "prop-optional":
+        return {"type": "object", "properties": {"m": m, "n": {"type": "integer"}}}
+    if pos == "prop-optional-default":
+        return {"type": "object", "properties": {"m": dict(m, default={}), "n": {"type": "integer"}}}
+    if pos == "array-item":
+        return {"type": "object", "properties": {"l": {"type": "array", "items": m}}}
+    if pos == "map-value":
+        return {"type": "object", "properties": {"o": {"type": "object", "additionalProperties": m}}}
+    if pos == "variant-external":
+        return {"oneOf": [{"type": "object", "properties": {"a": m}, "required": ["a"], "additionalProperties": False},
+                          {"type": "object", "properties": {"b": {"type": "integer"}}, "required": ["b"], "additionalProperties": False}]}
+    if pos == "variant-untagged":
+        return {"oneOf": [m, {"type": "integer"}]}
+    if pos == "nullable":
+        return {"type": "object", "properties": {"m": {"oneOf": [m, {"type": "null"}]}}}
+    return m
+
+
+def map_combos():
+    out = []
+    for kn, keys in MAP_KEYS:
+        for vn, val in MAP_VALUES:
+            if kn == "plain" and vn.startswith("any"):
+                pass
+            for pos in MAP_POSITIONS:
+                out.append(("%s/%s/%s" % (kn, vn, pos), map_place(pos, map_schema(keys, val))))
+    return out
+
+
+def map_settings(mt, b):
+    st = {}
+    if mt:
+        st["map_type"] = mt
+    if b:
+        st["struct_builder"] = True
+    return st
+
+
+def stream_maps_single():
+    """every combination alone (ingestion only); the accepted ones are packed per setting for rustc"""
+    out = []
+    for si, (mt, b) in enumerate(MAP_SETTINGS):
+        for tag, sch in map_combos():
+            out.append(mk("map:%d:%s" % (si, tag), "maps", map_settings(mt, b),
+                          [{"op": "root", "doc": {"definitions": dict(MAP_DEFS, T=sch)}}], False, ["maps"]))
     return out
 
 
@@ -486,7 +576,7 @@ def simple_default(s):
 def mutate_fixture(rnd, name, doc):
     doc = copy.deepcopy(doc)
     kind = rnd.choice(["prop-odd", "prop-odd", "prop-collide", "default", "default-bad", "nullable-def", "title-fresh",
-                       "def-rename", "root-title-collide", "root-title-collide"])
+                       "def-rename", "root-title-collide", "root-title-collide", "inject-map", "inject-map"])
     objs = []
     objects_in(doc, [], objs)
     defs = doc.get("definitions") or doc.get("$defs") or {}
@@ -533,6 +623,20 @@ def mutate_fixture(rnd, name, doc):
             return None
         o["properties"][p] = dict(o["properties"][p], title="FreshTitle%d" % rnd.randrange(100))
         return kind, doc
+    if kind == "inject-map" and objs:
+        # a map with constrained keys (every inline key shape of maps.json) as a required / optional property of a
+        # random struct of the fixture
+        o = at(doc, rnd.choice(objs))
+        kn, keys = rnd.choice([k for k in MAP_KEYS if "$ref" not in json.dumps(k[1])])
+        vn, val = rnd.choice([v for v in MAP_VALUES if "$ref" not in json.dumps(v[1])])
+        pname = rnd.choice(["injected_map", "x-map", "labels"])
+        if pname in o["properties"]:
+            return None
+        o["properties"][pname] = map_schema(keys, val)
+        req = rnd.random() < 0.4
+        if req:
+            o["required"] = sorted(set(list(o.get("required") or []) + [pname]))
+        return "inject-map:%s:%s:%s" % (kn, vn, "required" if req else "optional"), doc
     if kind == "root-title-collide" and defs:
         # the root gets a title that names one of its own definitions: exactly, or up to case / separators.
         # Fix c22ef06 must reject the document when both map to one type name (decided by the real sanitize).
@@ -578,8 +682,9 @@ def stream_mutations(ctx, n):
         st = fixture_settings(rnd.choice([0, 1]))
         m = mk("mutation:%d:%s:%s" % (len(out), name, kind), "mutation", st, [{"op": "root", "doc": d2}], False,
                ["mut:" + kind])
-        if kind == "root-title-collide:same":
-            m["expect_fixed"] = {"commit": "c22ef06", "now": "rejected", "was": "titled root and a definition of its own call map to one type name"}
+        # root-title-collide:same is rejected by c22ef06 unless the definition emits no item of its own (x-rust-type /
+        # replaced definitions: accepted, and then it must compile).  Either way any failing outcome is a VIOLATION by
+        # the general rule for random streams; the strict must-reject cases are corpus/C01/r01, r02, r06.
         out.append(m)
     return out
 
@@ -860,6 +965,36 @@ def classify(case, g, kind, codes, msgs):
     return None
 
 
+def skip_path_mismatches(g):
+    """independent of rustc: every `#[serde(skip_serializing_if = "P::f")]` must name a function of the field's
+    own rendered type (through at most one Box): `P` is the head of the field type.  Two sites decide this in typify
+    (structs.rs generate_serde_attr for the path, type_entry.rs type_ident for the type); they must agree."""
+    bad = []
+
+    def fields_of(it):
+        if it["kind"] == "struct" and it["fields"]["k"] == "named":
+            yield it["name"], it["fields"]["fields"]
+        if it["kind"] == "enum":
+            for v in it["variants"]:
+                if v["fields"]["k"] == "named":
+                    yield it["name"] + "::" + v["name"], v["fields"]["fields"]
+    for it in g["render"]["scan"]["items"]:
+        if it["mod"] != "":
+            continue
+        for owner, fs in fields_of(it):
+            for f in fs:
+                for a in f["serde"]:
+                    if a[0] == "skip_serializing_if" and len(a) > 1:
+                        path = a[1].replace(" ", "")
+                        head = path.rsplit("::", 1)[0]
+                        ty = f["ty"].replace(" ", "")
+                        if ty.startswith("::std::boxed::Box<"):
+                            ty = ty[len("::std::boxed::Box<"):]
+                        if not (ty == head or ty.startswith(head + "<")):
+                            bad.append({"item": owner, "field": f["name"], "type": f["ty"].replace(" ", ""), "skip_serializing_if": path})
+    return bad
+
+
 # ---------------------------------------------------------------------------
 # shrinking
 # ---------------------------------------------------------------------------
@@ -1009,6 +1144,7 @@ TAG_FINDINGS = {
     "prelude_result": {"C01-3"},
     "untagged_simple": set(),      # C01-15 fixed by aaa3535: such enums are rejected at add
     "defaults": set(),
+    "skip_path": set(),
 }
 MODEL_GAPS = {"C01-13"}     # NFC normalisation of identifiers is not modelled (Props speak of scalar sequences)
 
@@ -1058,8 +1194,27 @@ def run(ctx):
                      ["pack"]) for k, p in enumerate(packs)]
     ctx.log("small scope: %d schemas, %d accepted, %d packs" % (len(ss_cases), len(acc), len(packs)))
 
-    fixed_all = fixed + pack_cases
-    gens_fixed = gen_all(fixed, isolate=True) + gen_all(pack_cases, isolate=False)
+    # constrained-key maps: every combination alone through the converter, then packed per setting
+    mp_cases = stream_maps_single()
+    mp_gen = gen_all(mp_cases, isolate=False)
+    mp_kind = [ingest_outcome(g) for g in mp_gen]
+    MPACK = 54
+    mp_packs, mp_pack_cases = [], []
+    for si, (mt, b) in enumerate(MAP_SETTINGS):
+        accm = [k for k, c in enumerate(mp_cases) if c["id"].startswith("map:%d:" % si) and mp_kind[k][0] == "generated"]
+        for k0 in range(0, len(accm), MPACK):
+            grp = accm[k0:k0 + MPACK]
+            defs = dict(MAP_DEFS)
+            for n, k in enumerate(grp):
+                defs["T%d" % n] = mp_cases[k]["steps"][0]["doc"]["definitions"]["T"]
+            mp_pack_cases.append(mk("mappack:%d" % len(mp_packs), "maps-pack", map_settings(mt, b),
+                                    [{"op": "root", "doc": {"definitions": defs}}], False, ["pack"]))
+            mp_packs.append(grp)
+    ctx.log("maps: %d combinations x settings, %d accepted, %d packs" % (
+        len(mp_cases), len([k for k in mp_kind if k[0] == "generated"]), len(mp_packs)))
+
+    fixed_all = fixed + pack_cases + mp_pack_cases
+    gens_fixed = gen_all(fixed, isolate=True) + gen_all(pack_cases, isolate=False) + gen_all(mp_pack_cases, isolate=False)
     gens_rand = gen_all(rand, isolate=False)
 
     def build(name, cases, gens):
@@ -1119,6 +1274,23 @@ def run(ctx):
                             "codes": sorted({e[0] or "?" for e in ws.compile_errors.get(j, [])}),
                             "msgs": [e[1] for e in ws.compile_errors.get(j, [])]})
     results = [r for r in results if not (r["case"]["stream"] == "smallscope-pack" and r["kind"] != "ok")]
+    mp_fail = []
+    for r in results:
+        if r["case"]["stream"] == "maps-pack" and r["kind"] != "ok":
+            mp_fail += mp_packs[int(r["case"]["id"].split(":")[1])]
+    if mp_fail:
+        sub = [mp_cases[j] for j in mp_fail]
+        sg = [mp_gen[j] for j in mp_fail]
+        wm = build("c01-mapsplit-" + ctx.tier, sub, sg)
+        for j, (c, g) in enumerate(zip(sub, sg)):
+            kind = "compile-error" if wm.status[j] == "compile-error" else "ok"
+            results.append({"case": c, "g": g, "kind": kind, "detail": "",
+                            "codes": sorted({e[0] or "?" for e in wm.compile_errors.get(j, [])}),
+                            "msgs": [e[1] for e in wm.compile_errors.get(j, [])]})
+    results = [r for r in results if not (r["case"]["stream"] == "maps-pack" and r["kind"] != "ok")]
+    for k, c in enumerate(mp_cases):
+        if mp_kind[k][0] != "generated":
+            results.append({"case": c, "g": mp_gen[k], "kind": mp_kind[k][0], "detail": mp_kind[k][1], "codes": [], "msgs": []})
     for k, c in enumerate(ss_cases):
         if ss_kind[k][0] != "generated":
             results.append({"case": c, "g": ss_gen[k], "kind": ss_kind[k][0], "detail": ss_kind[k][1], "codes": [], "msgs": []})
@@ -1126,6 +1298,18 @@ def run(ctx):
     for r in results:
         if r["case"]["stream"] != "hostile" and r["kind"] != "ok":
             ctx.log("non-ok:", r["case"]["id"], r["kind"], r["codes"], r["detail"][:120].replace("\n", " "))
+    if MUTATE == "impl-skip-path-serde-map":
+        # emulate generate_serde_attr choosing `::serde_json::Map::is_empty` for every optional map with JsonValue
+        # values, whatever the key type: the recorded scan and the rustc verdict of a curated case are altered
+        for r in results:
+            if r["case"]["id"] == "hostile:maps-pattern-any-optional" and r["kind"] == "ok":
+                for it in r["g"]["render"]["scan"]["items"]:
+                    if it["kind"] == "struct" and it["fields"]["k"] == "named":
+                        for f in it["fields"]["fields"]:
+                            for a in f["serde"]:
+                                if a[0] == "skip_serializing_if" and "Map" in a[1] and "HashMap" in f["ty"]:
+                                    a[1] = "::serde_json::Map::is_empty"
+                r["kind"], r["codes"], r["msgs"] = "compile-error", ["E0308"], ["mismatched types"]
     if MUTATE == "impl-accepts-titled-root":
         # emulate the loss of fix c22ef06 for a titled root: the must-reject cases are accepted and the module has two
         # items of one name (the recorded answer of a real duplicate-item module is substituted)
@@ -1187,6 +1371,21 @@ def run(ctx):
                          "resembles_listed_class_but_not_its_recorded_case": looks_like,
                          "settings": c["settings"], "steps": c["steps"]})
 
+    # the serde attribute and the field type are produced by two sites: they must agree (no rustc needed)
+    skip_bad = []
+    n_skip = 0
+    for r in results:
+        if r["kind"] in ("ok", "compile-error") and "render" in r["g"] and r["g"]["render"].get("scan"):
+            n_skip += 1
+            for b in skip_path_mismatches(r["g"]):
+                skip_bad.append(dict(b, id=r["case"]["id"]))
+                if not any(v.get("id") == r["case"]["id"] and "skip_serializing_if" in v["what"] for v in viol):
+                    viol.append({"what": "rustc-independent oracle: skip_serializing_if names a function of another type than the field's",
+                                 "id": r["case"]["id"], "field": b, "codes": r["codes"], "messages": r["msgs"][:3], "detail": "",
+                                 "settings": r["case"]["settings"], "steps": r["case"]["steps"]})
+    ctx.oblige("every skip_serializing_if path names a function of the field's rendered type (%d modules)" % n_skip,
+               not skip_bad, json.dumps(skip_bad[:5]))
+
     # witnesses of FIXED findings are regression cases: they must be accepted and compile (or be rejected at add
     # when the fix is a rejection); a fixed entry suppresses nothing
     for r in results:
@@ -1234,9 +1433,9 @@ def run(ctx):
     if coq_ok:
         try:
             gi = [n for n, r in enumerate(results) if r["kind"] in ("ok", "compile-error", "render-panic", "unparsable")
-                  and "dump" in r["g"] and r["case"]["stream"] != "smallscope-pack"]
+                  and "dump" in r["g"] and r["case"]["stream"] not in ("smallscope-pack", "maps-pack")]
             # packs: evaluated as modules too (they are what rustc judged)
-            gi += [n for n, r in enumerate(results) if r["case"]["stream"] == "smallscope-pack" and r["kind"] == "ok"]
+            gi += [n for n, r in enumerate(results) if r["case"]["stream"] in ("smallscope-pack", "maps-pack") and r["kind"] == "ok"]
             reps = coq_wf(ctx, [r["g"] for r in results], gi, "c01-" + ctx.tier)
             for n in gi:
                 r = results[n]
